@@ -11,75 +11,441 @@ open PgVerif.Model.Cache
 
 variable {φ ο χ ρ : Type} [DecidableEq φ]
 
-/-- after the rebuild step the cached key is the requested one -/
-theorem rebuilt_key (c : Option (Key φ)) (k : Key φ) :
-    (if mustRebuild c k then some k else c) = some k := by
-  unfold mustRebuild
-  cases c with
-  | none => simp
-  | some c =>
-    by_cases h : (c.branch != k.branch || c.kind != k.kind || c.fill != k.fill) = true
+/-- after a successful rebuild step the cached key is the requested one; after a failed one the cache is untouched -/
+theorem rebuild_key (B : ο → Key φ → Option ρ) (o : ο) (c : Option (Key φ)) (k : Key φ) :
+    (B o k = none → rebuild B o c k = (none, some k)) ∧
+    (∀ err, B o k = some err → rebuild B o c k = (if mustRebuild c k then some err else none, c)) := by
+  unfold rebuild
+  constructor
+  · intro hb
+    by_cases h : mustRebuild c k = true
+    · simp [h, hb]
+    · simp only [h, Bool.false_eq_true, ↓reduceIte, Prod.mk.injEq, true_and]
+      unfold mustRebuild at h
+      cases c with
+      | none => simp at h
+      | some c =>
+        simp only [Bool.not_eq_true, Bool.or_eq_false_iff, bne_eq_false_iff_eq] at h
+        obtain ⟨⟨h1, h2⟩, h3⟩ := h
+        cases c; cases k; simp_all
+  · intro err hb
+    by_cases h : mustRebuild c k = true
+    · simp [h, hb]
     · simp [h]
-    · simp only [h]
-      simp only [Bool.not_eq_true, Bool.or_eq_false_iff, bne_eq_false_iff_eq] at h
-      obtain ⟨⟨h1, h2⟩, h3⟩ := h
-      cases c; cases k; simp_all
 
-/-- **cache transparency, one step**: `loading_at` returns what an interpolator built for exactly the requested
-(branch, kind, fill) returns, whatever was cached before -/
-theorem loadingAt_outcome (E : ο → Key φ → χ → ρ) (o : ο) (h : Hidden φ) (k : Key φ) (x : χ) :
-    (loadingAt E o h k x).1 = E o k x := by
+/-- a cache that holds a buildable key different in no component from the request is not rebuilt -/
+private theorem mustRebuild_self (k : Key φ) : mustRebuild (some k) k = false := by
+  simp [mustRebuild]
+
+/-- a valid cache never needs a rebuild for a key whose constructor raises: such a key is never cached -/
+private theorem rebuild_of_unbuildable (B : ο → Key φ → Option ρ) (o : ο) (c : Option (Key φ)) (k : Key φ) (err : ρ)
+    (hv : ∀ c', c = some c' → B o c' = none) (hb : B o k = some err) : rebuild B o c k = (some err, c) := by
+  have hm : mustRebuild c k = true := by
+    cases c with
+    | none => rfl
+    | some c' =>
+      by_contra hne
+      have hne' : mustRebuild (some c') k = false := by simpa using hne
+      unfold mustRebuild at hne'
+      simp only [Bool.or_eq_false_iff, bne_eq_false_iff_eq] at hne'
+      obtain ⟨⟨h1, h2⟩, h3⟩ := hne'
+      have : c' = k := by cases c'; cases k; simp_all
+      rw [this] at hv
+      rw [hv k rfl] at hb
+      cases hb
+  unfold rebuild
+  simp [hm, hb]
+
+/-- **cache transparency, one step**: on a valid cache `loading_at` returns what an interpolator built for exactly the
+requested (branch, kind, fill) returns — the constructor's error if it raises — whatever was cached before -/
+theorem loadingAt_outcome (E : ο → Key φ → χ → ρ) (B : ο → Key φ → Option ρ) (o : ο) (h : Hidden φ) (k : Key φ) (x : χ)
+    (hv : ∀ c, h.l = some c → B o c = none) :
+    (loadingAt E B o h k x).1 = (match B o k with | some err => err | none => E o k x) := by
   unfold loadingAt
-  have := rebuilt_key h.l k
-  by_cases hr : mustRebuild h.l k = true
-  · simp [hr]
-  · simp only [hr, Bool.false_eq_true, ↓reduceIte] at this ⊢
-    rw [this]
+  cases hb : B o k with
+  | none => simp [(rebuild_key B o h.l k).1 hb, evalCached]
+  | some err => simp [rebuild_of_unbuildable B o h.l k err hv hb]
 
-theorem pressureAt_outcome (E : ο → Key φ → χ → ρ) (o : ο) (h : Hidden φ) (k : Key φ) (x : χ) :
-    (pressureAt E o h k x).1 = E o k x := by
+theorem pressureAt_outcome (E : ο → Key φ → χ → ρ) (B : ο → Key φ → Option ρ) (o : ο) (h : Hidden φ) (k : Key φ) (x : χ)
+    (hv : ∀ c, h.p = some c → B o c = none) :
+    (pressureAt E B o h k x).1 = (match B o k with | some err => err | none => E o k x) := by
   unfold pressureAt
-  have := rebuilt_key h.p k
-  by_cases hr : mustRebuild h.p k = true
-  · simp [hr]
-  · simp only [hr, Bool.false_eq_true, ↓reduceIte] at this ⊢
-    rw [this]
+  cases hb : B o k with
+  | none => simp [(rebuild_key B o h.p k).1 hb, evalCached]
+  | some err => simp [rebuild_of_unbuildable B o h.p k err hv hb]
 
-/-- the outcome of ANY modelled query does not depend on the hidden state -/
-theorem outcome_independent_of_hidden (w : World φ ο χ ρ) (o : ο) (h₁ h₂ : Hidden φ) (q : Query φ χ) :
-    (run w o h₁ q).1 = (run w o h₂ q).1 := by
+theorem spreadingAt_outcome (w : World φ ο χ ρ) (o : ο) (h : Hidden φ) (b : String) (f : Option φ) (x : χ)
+    (hv : ∀ c, h.l = some c → w.BL o c = none) :
+    (spreadingAt w.EL w.BL w.guard w.S o h b f x).1 =
+      (match w.guard o f x with
+       | some refused => refused
+       | none => match w.BL o ⟨b, "linear", f⟩ with
+         | some err => err
+         | none => w.S o x (w.EL o ⟨b, "linear", f⟩ x)) := by
+  unfold spreadingAt
+  cases w.guard o f x with
+  | some r => rfl
+  | none =>
+    cases hb : w.BL o ⟨b, "linear", f⟩ with
+    | none => simp [(rebuild_key w.BL o h.l ⟨b, "linear", f⟩).1 hb, evalCached]
+    | some err => simp [rebuild_of_unbuildable w.BL o h.l ⟨b, "linear", f⟩ err hv hb]
+
+/-- the outcome of ANY modelled query is the same on any two valid hidden states -/
+theorem outcome_independent_of_hidden (w : World φ ο χ ρ) (o : ο) (h₁ h₂ : Hidden φ) (hv₁ : Valid w o h₁) (hv₂ : Valid w o h₂)
+    (q : Query φ χ) : (run w o h₁ q).1 = (run w o h₂ q).1 := by
   cases q with
-  | loadingAt k x => simp [run, loadingAt_outcome]
-  | pressureAt k x => simp [run, pressureAt_outcome]
+  | loadingAt k x => simp only [run]; rw [loadingAt_outcome _ _ _ _ _ _ hv₁.1, loadingAt_outcome _ _ _ _ _ _ hv₂.1]
+  | pressureAt k x => simp only [run]; rw [pressureAt_outcome _ _ _ _ _ _ hv₁.2, pressureAt_outcome _ _ _ _ _ _ hv₂.2]
+  | spreadingAt b f x => simp only [run]; rw [spreadingAt_outcome w o h₁ b f x hv₁.1, spreadingAt_outcome w o h₂ b f x hv₂.1]
+  | plain n => rfl
+
+/-- the rebuild step keeps the cache valid -/
+private theorem rebuild_valid (B : ο → Key φ → Option ρ) (o : ο) (c : Option (Key φ)) (k : Key φ)
+    (hv : ∀ c', c = some c' → B o c' = none) : ∀ c', (rebuild B o c k).2 = some c' → B o c' = none := by
+  intro c' hc
+  unfold rebuild at hc
+  by_cases hm : mustRebuild c k = true
+  · simp only [hm, ↓reduceIte] at hc
+    cases hb : B o k with
+    | none =>
+      simp only [hb] at hc
+      cases hc
+      exact hb
+    | some err =>
+      simp only [hb] at hc
+      exact hv c' hc
+  · simp only [hm, Bool.false_eq_true, ↓reduceIte] at hc
+    exact hv c' hc
+
+/-- every query keeps the hidden state valid -/
+theorem run_valid (w : World φ ο χ ρ) (o : ο) (h : Hidden φ) (hv : Valid w o h) (q : Query φ χ) : Valid w o (run w o h q).2 := by
+  cases q with
+  | loadingAt k x =>
+    simp only [run, loadingAt]
+    cases (rebuild w.BL o h.l k).1 <;> exact ⟨rebuild_valid w.BL o h.l k hv.1, hv.2⟩
+  | pressureAt k x =>
+    simp only [run, pressureAt]
+    cases (rebuild w.BP o h.p k).1 <;> exact ⟨hv.1, rebuild_valid w.BP o h.p k hv.2⟩
   | spreadingAt b f x =>
     simp only [run, spreadingAt]
     cases w.guard o f x with
-    | some r => rfl
+    | some r => exact hv
     | none =>
-      have e1 := loadingAt_outcome w.EL o h₁ ⟨b, "linear", f⟩ x
-      have e2 := loadingAt_outcome w.EL o h₂ ⟨b, "linear", f⟩ x
       simp only []
-      rw [show (loadingAt w.EL o h₁ ⟨b, "linear", f⟩ x) = ((loadingAt w.EL o h₁ ⟨b, "linear", f⟩ x).1, (loadingAt w.EL o h₁ ⟨b, "linear", f⟩ x).2) from rfl,
-          show (loadingAt w.EL o h₂ ⟨b, "linear", f⟩ x) = ((loadingAt w.EL o h₂ ⟨b, "linear", f⟩ x).1, (loadingAt w.EL o h₂ ⟨b, "linear", f⟩ x).2) from rfl]
-      simp [e1, e2]
-  | plain n => rfl
+      cases (rebuild w.BL o h.l ⟨b, "linear", f⟩).1 <;> exact ⟨rebuild_valid w.BL o h.l ⟨b, "linear", f⟩ hv.1, hv.2⟩
+  | plain n => exact hv
+
+omit [DecidableEq φ] in
+theorem fresh_valid (w : World φ ο χ ρ) (o : ο) : Valid w o ⟨none, none⟩ :=
+  ⟨fun _ h => by simp at h, fun _ h => by simp at h⟩
+
+private theorem after_valid (w : World φ ο χ ρ) (o : ο) (qs : List (Query φ χ)) (h : Hidden φ) (hv : Valid w o h) :
+    Valid w o (after w o h qs) := by
+  induction qs generalizing h with
+  | nil => exact hv
+  | cons q qs ih =>
+    simp only [after, List.foldl_cons] at ih ⊢
+    exact ih _ (run_valid w o h hv q)
 
 /-- **history independence**: the outcome of a query issued after ANY sequence of other queries equals the outcome of the
 same query issued first on a fresh object (empty caches) -/
 theorem query_outcome_history_free (w : World φ ο χ ρ) (o : ο) (qs : List (Query φ χ)) (q : Query φ χ) :
     (run w o (after w o ⟨none, none⟩ qs) q).1 = (run w o ⟨none, none⟩ q).1 :=
-  outcome_independent_of_hidden w o _ _ q
+  outcome_independent_of_hidden w o _ _ (after_valid w o qs _ (fresh_valid w o)) (fresh_valid w o) q
 
 /-- the cached key, if any, is always the key of the interpolator that was built from the same observable content:
-a cached interpolator is only ever used under an equal key (`cache_key_sound`) -/
-theorem cache_key_sound (E : ο → Key φ → χ → ρ) (o : ο) (h : Hidden φ) (k : Key φ) (x : χ) :
-    (loadingAt E o h k x).2.l = some k := by
-  unfold loadingAt
-  have := rebuilt_key h.l k
-  by_cases hr : mustRebuild h.l k = true
-  · simp [hr]
-  · simp only [hr, Bool.false_eq_true, ↓reduceIte] at this ⊢
-    rw [this]
-    exact this
+a cached interpolator is only ever used under an equal key (`cache_key_sound`); a key whose constructor raises is never cached -/
+theorem cache_key_sound (E : ο → Key φ → χ → ρ) (B : ο → Key φ → Option ρ) (o : ο) (h : Hidden φ) (k : Key φ) (x : χ) :
+    (B o k = none → (loadingAt E B o h k x).2.l = some k) ∧
+    (∀ err, B o k = some err → (loadingAt E B o h k x).2.l = h.l) := by
+  constructor
+  · intro hb
+    unfold loadingAt
+    simp [(rebuild_key B o h.l k).1 hb]
+  · intro err hb
+    unfold loadingAt
+    rw [(rebuild_key B o h.l k).2 err hb]
+    by_cases hm : mustRebuild h.l k = true <;> simp [hm]
+
+/-- non-vacuity and a reminder why the failing constructor matters: a cubic request that cannot be built leaves the linear
+interpolator in place, and the next linear request is served from it without a rebuild -/
+example :
+    let B : Unit → Key ℕ → Option String := fun _ k => if k.kind = "cubic" then some "ValueError" else none
+    let E : Unit → Key ℕ → Unit → String := fun _ k _ => k.kind
+    (loadingAt E B () (loadingAt E B () ⟨none, none⟩ ⟨"ads", "linear", none⟩ ()).2 ⟨"ads", "cubic", none⟩ ()) =
+      ("ValueError", ⟨some ⟨"ads", "linear", none⟩, none⟩) := by decide
+
+/-! ## Generic principle: hidden state that keeps an invariant and never reaches the outcome is invisible -/
+
+section Generic
+variable {ο' η Q ρ' : Type}
+
+private theorem afterG_fst (step : ο' → η → Q → ρ' × ο' × η) (hobs : ∀ o h q, (step o h q).2.1 = o)
+    (qs : List Q) (o : ο') (h : η) : (afterG step (o, h) qs).1 = o := by
+  induction qs generalizing h with
+  | nil => rfl
+  | cons q qs ih =>
+    simp only [afterG, List.foldl_cons] at ih ⊢
+    rw [hobs o h q]
+    exact ih _
+
+private theorem afterG_inv (step : ο' → η → Q → ρ' × ο' × η) (I : ο' → η → Prop) (hobs : ∀ o h q, (step o h q).2.1 = o)
+    (hI : ∀ o h q, I o h → I o (step o h q).2.2) (qs : List Q) (o : ο') (h : η) (h0 : I o h) : I o (afterG step (o, h) qs).2 := by
+  induction qs generalizing h with
+  | nil => exact h0
+  | cons q qs ih =>
+    simp only [afterG, List.foldl_cons] at ih ⊢
+    rw [hobs o h q]
+    exact ih _ (hI o h q h0)
+
+/-- **generic history independence**: if every query returns the observable state unchanged (`hobs`), keeps an invariant
+`I` of the hidden state (`hI`; it may mention the observable state), and its outcome is the same on any two hidden states satisfying `I` (`hout`), then after ANY
+history started from a hidden state satisfying `I` the observable state is the original one and every query has the outcome
+it has on the fresh object -/
+theorem history_free_of_invariant (step : ο' → η → Q → ρ' × ο' × η) (I : ο' → η → Prop)
+    (hobs : ∀ o h q, (step o h q).2.1 = o)
+    (hI : ∀ o h q, I o h → I o (step o h q).2.2)
+    (hout : ∀ o h h' q, I o h → I o h' → (step o h q).1 = (step o h' q).1)
+    (o : ο') (h₀ : η) (h0 : I o h₀) (qs : List Q) (q : Q) :
+    (afterG step (o, h₀) qs).1 = o ∧
+    (step (afterG step (o, h₀) qs).1 (afterG step (o, h₀) qs).2 q).1 = (step o h₀ q).1 := by
+  refine ⟨afterG_fst step hobs qs o h₀, ?_⟩
+  rw [afterG_fst step hobs qs o h₀]
+  exact hout o _ _ q (afterG_inv step I hobs hI qs o h₀ h0) h0
+
+end Generic
+
+/-! ## Thermodynamic state of an adsorbate -/
+
+section ThermoSec
+open Thermo
+variable {οa ρa : Type}
+
+omit [DecidableEq φ] in
+/-- the code's policy (every accessor updates the state with its own arguments) satisfies the invariant -/
+theorem alwaysUpdate_fullUpdate : FullUpdate (alwaysUpdate (φ := φ)) := by
+  intro cur req h
+  simp [alwaysUpdate] at h
+
+omit [DecidableEq φ] in
+/-- under `FullUpdate` one (update, read) step returns what CoolProp returns for exactly the requested flash, and leaves
+exactly that flash in the state, whatever the state held before -/
+theorem flashRead_eq (w : Thermo.World φ οa ρa) (hp : FullUpdate w.policy) (o : οa) (s : Option (Flash φ)) (f : Flash φ)
+    (name : String) : flashRead w o s f name = (w.F o f name, some f) := by
+  unfold flashRead
+  by_cases h : w.policy s f = true
+  · simp [h]
+  · have hs : s = some f := hp s f (by simpa using h)
+    simp [hs]
+
+omit [DecidableEq φ] in
+private theorem runSteps_indep (w : Thermo.World φ οa ρa) (hp : FullUpdate w.policy) (o : οa) (steps : List (Flash φ × String))
+    (s₁ s₂ : Option (Flash φ)) : (runSteps w o s₁ steps).1 = (runSteps w o s₂ steps).1 := by
+  cases steps with
+  | nil => rfl
+  | cons st rest =>
+    obtain ⟨f, name⟩ := st
+    simp only [runSteps, flashRead_eq w hp]
+
+omit [DecidableEq φ] in
+/-- **the shared CoolProp state is invisible**: the outcome of every accessor is the same on any two hidden states -/
+theorem thermo_outcome_independent_of_hidden (w : Thermo.World φ οa ρa) (hp : FullUpdate w.policy) (o : οa)
+    (h₁ h₂ : Thermo.Hidden φ) (q : Thermo.Query φ) : (Thermo.run w o h₁ q).1 = (Thermo.run w o h₂ q).1 := by
+  cases q with
+  | flashes steps key =>
+    simp only [Thermo.run]
+    rw [runSteps_indep w hp o steps (backend h₁) (backend h₂)]
+  | const name key viaState => rfl
+  | lookup key => rfl
+
+omit [DecidableEq φ] in
+/-- no accessor changes the adsorbate (its name, aliases, `properties` dictionary) -/
+theorem thermo_preserves_obs (w : Thermo.World φ οa ρa) (o : οa) (h : Thermo.Hidden φ) (q : Thermo.Query φ) :
+    (Thermo.run w o h q).2.1 = o := by
+  cases q <;> rfl
+
+omit [DecidableEq φ] in
+/-- **history independence of the thermodynamic accessors**: after any sequence of accessor calls (other temperatures,
+other phases, pressure flashes, dictionary look-ups) the adsorbate is unchanged and every accessor returns the value, or the
+kind of error, it returns on a fresh adsorbate (`_state is None`) -/
+theorem thermo_query_history_free (w : Thermo.World φ οa ρa) (hp : FullUpdate w.policy) (o : οa)
+    (qs : List (Thermo.Query φ)) (q : Thermo.Query φ) :
+    (afterG (Thermo.run w) (o, none) qs).1 = o ∧
+    (Thermo.run w (afterG (Thermo.run w) (o, none) qs).1 (afterG (Thermo.run w) (o, none) qs).2 q).1 = (Thermo.run w o none q).1 :=
+  history_free_of_invariant (Thermo.run w) (fun _ _ => True) (thermo_preserves_obs w) (fun _ _ _ _ => trivial)
+    (fun o h h' q _ _ => thermo_outcome_independent_of_hidden w hp o h h' q) o none trivial qs q
+
+/-- a policy that skips the update when only the TEMPERATURE coordinate of the state agrees (seeded changes C04-m2, -m4) -/
+def skipSameT : Option (Flash ℕ) → Flash ℕ → Bool
+  | some c, req => c.v2 != req.v2
+  | none, _ => true
+
+/-- a world in which the state returns the quality it was flashed with: 0 = liquid side, 1 = vapour side -/
+def witnessWorld : Thermo.World ℕ Unit ℕ := ⟨fun _ f _ => some f.v1, fun _ _ => none, fun _ _ => none, fun l => l.headD 0, skipSameT⟩
+
+/-- **the invariant is necessary**: with `skipSameT` a liquid-side read at 77 issued after a vapour-side read at 77 returns the
+vapour value, while on a fresh adsorbate it returns the liquid value -/
+theorem fullUpdate_necessary :
+    ¬ FullUpdate skipSameT ∧
+    (Thermo.run witnessWorld () (afterG (Thermo.run witnessWorld) ((), none) [.flashes [(⟨"QT", 1, 77⟩, "rhomass")] "gas_density"]).2
+        (.flashes [(⟨"QT", 0, 77⟩, "rhomass")] "liquid_density")).1
+      ≠ (Thermo.run witnessWorld () none (.flashes [(⟨"QT", 0, 77⟩, "rhomass")] "liquid_density")).1 := by
+  constructor
+  · intro h
+    have := h (some ⟨"QT", 1, 77⟩) ⟨"QT", 0, 77⟩ (by decide)
+    exact absurd this (by decide)
+  · decide
+
+/-- non-vacuity of `thermo_query_history_free`: the code's policy in a concrete world -/
+example : (Thermo.run ({ witnessWorld with policy := alwaysUpdate }) ()
+      (afterG (Thermo.run { witnessWorld with policy := alwaysUpdate }) ((), none) [.flashes [(⟨"QT", 1, 77⟩, "rhomass")] "gas_density"]).2
+      (.flashes [(⟨"QT", 0, 77⟩, "rhomass")] "liquid_density")).1 = .ok 0 := by decide
+
+end ThermoSec
+
+/-! ## The defect class "memoise into the public dictionary": witnesses -/
+
+section MemoSec
+open Thermo ThermoMemo
+
+/-- a fluid whose backend knows the triple-point pressure (5) but whose dictionary has no `p_triple` entry -/
+def memoWorld : Thermo.World ℕ (Dict ℕ) ℕ :=
+  ⟨fun _ _ _ => none, fun _ name => if name = "PTRIPLE" then some 5 else none, fun o key => o.lookup key, fun l => l.headD 0, alwaysUpdate⟩
+
+/-- the memoising accessor returns the right value but changes the adsorbate ... -/
+theorem memo_changes_adsorbate :
+    (runConstMemo memoWorld [] none "PTRIPLE" "p_triple").1 = (Thermo.run memoWorld [] none (.const "PTRIPLE" "p_triple" false)).1 ∧
+    (runConstMemo memoWorld [] none "PTRIPLE" "p_triple").2.1 ≠ [] := by decide
+
+/-- ... and changes the KIND of outcome of a later `calculate=False` look-up (error on a fresh adsorbate, value afterwards) -/
+theorem memo_changes_outcome_kind :
+    (Thermo.run memoWorld [] none (.lookup "p_triple")).1 = .calcErr ∧
+    (Thermo.run memoWorld (runConstMemo memoWorld [] none "PTRIPLE" "p_triple").2.1 none (.lookup "p_triple")).1 = .ok 5 := by decide
+
+omit [DecidableEq φ] in
+/-- when the key is already stored the memoising accessor is indistinguishable from the real one (why the defect needs an
+adsorbate WITHOUT the stored key to manifest) -/
+theorem memo_invisible_when_key_stored (w : Thermo.World φ (Dict ρ) ρ) (o : Dict ρ) (h : Thermo.Hidden φ) (name key : String) (v : ρ)
+    (hk : o.lookup key = some v) : (runConstMemo w o h name key).2.1 = o := by
+  unfold runConstMemo
+  cases w.K o name with
+  | none => rfl
+  | some x => simp [setdefault, hk]
+
+end MemoSec
+
+/-! ## Module-level caches of loaded curves and kernels -/
+
+section LoadedSec
+open Loaded
+variable {ι κ ν : Type} [DecidableEq κ]
+
+theorem sound_nil (keyOf : ι → κ) (loader : ι → ν) : Sound keyOf loader ([] : Loaded.Hidden κ ν) := by
+  intro r v h
+  simp at h
+
+/-- a sound cache answers every request with what loading from disk gives -/
+theorem load_outcome (keyOf : ι → κ) (loader : ι → ν) (c : Loaded.Hidden κ ν) (hc : Sound keyOf loader c) (r : ι) :
+    (load keyOf loader c r).1 = loader r := by
+  unfold load
+  cases h : c.lookup (keyOf r) with
+  | none => rfl
+  | some v => exact hc r v h
+
+/-- `load` never changes what is already stored, and keeps the cache sound when the key determines the content -/
+theorem load_sound (keyOf : ι → κ) (loader : ι → ν) (hk : KeyDetermines keyOf loader) (c : Loaded.Hidden κ ν)
+    (hc : Sound keyOf loader c) (r : ι) : Sound keyOf loader (load keyOf loader c r).2 := by
+  unfold load
+  cases h : c.lookup (keyOf r) with
+  | some v => exact hc
+  | none =>
+    intro r' v hv
+    simp only [List.lookup_cons] at hv
+    by_cases e : keyOf r' = keyOf r
+    · simp only [e, beq_self_eq_true] at hv
+      cases hv
+      exact hk r r' e.symm
+    · have : (keyOf r' == keyOf r) = false := by simpa using e
+      simp only [this] at hv
+      exact hc r' v hv
+
+private theorem after_sound (keyOf : ι → κ) (loader : ι → ν) (hk : KeyDetermines keyOf loader) (rs : List ι) (c : Loaded.Hidden κ ν)
+    (hc : Sound keyOf loader c) : Sound keyOf loader (Loaded.after keyOf loader c rs) := by
+  induction rs generalizing c with
+  | nil => exact hc
+  | cons r rs ih =>
+    simp only [Loaded.after, List.foldl_cons] at ih ⊢
+    exact ih _ (load_sound keyOf loader hk c hc r)
+
+/-- **the module caches are invisible**: after any sequence of requests every request is answered as on a fresh module -/
+theorem loaded_history_free (keyOf : ι → κ) (loader : ι → ν) (hk : KeyDetermines keyOf loader) (rs : List ι) (r : ι) :
+    (load keyOf loader (Loaded.after keyOf loader [] rs) r).1 = (load keyOf loader [] r).1 := by
+  rw [load_outcome keyOf loader _ (after_sound keyOf loader hk rs [] (sound_nil keyOf loader)) r,
+      load_outcome keyOf loader [] (sound_nil keyOf loader) r]
+
+/-- **the invariant is necessary**: a cache keyed by the file NAME only (`keyOf = Prod.fst`) answers a request for another
+file of the same name with the first file's content (seeded change C18-m2) -/
+theorem keyDetermines_necessary :
+    ¬ KeyDetermines (Prod.fst : String × ℕ → String) Prod.snd ∧
+    (load (Prod.fst : String × ℕ → String) Prod.snd (Loaded.after Prod.fst Prod.snd [] [("kernel.csv", 1)]) ("kernel.csv", 2)).1
+      ≠ (load (Prod.fst : String × ℕ → String) Prod.snd [] ("kernel.csv", 2)).1 := by
+  constructor
+  · intro h
+    exact absurd (h ("kernel.csv", 1) ("kernel.csv", 2) rfl) (by decide)
+  · decide
+
+/-- non-vacuity: the code keys by the full name / path (`keyOf = id`), which determines the content -/
+example (loader : String → ν) : KeyDetermines (id : String → String) loader := by
+  intro r r' h
+  simp only [id] at h
+  rw [h]
+
+end LoadedSec
+
+/-! ## Session: interpolators, thermodynamic state and module caches together -/
+
+section SessionSec
+open Session
+variable {οi οa ι κ ν : Type} [DecidableEq κ]
+
+theorem session_preserves_obs (w : Session.World φ οi οa χ ρ ι κ ν) (o : Obs οi οa) (h : Hid φ κ ν) (q : Session.Query φ χ ι) :
+    (Session.step w o h q).2.1 = o := by
+  cases q with
+  | iso q => rfl
+  | ads q =>
+    simp only [Session.step]
+    rw [thermo_preserves_obs]
+  | std r => rfl
+
+/-- **C04 for the modelled session**: under the two invariants, after ANY history of interpolation queries, thermodynamic
+accessor calls and reference-curve / kernel requests, issued in any order with any arguments, (a) the observable state
+(isotherm content, adsorbate) is the original one and (b) every query has the outcome it has as the first call on fresh
+objects with empty module caches -/
+theorem session_history_free (w : Session.World φ οi οa χ ρ ι κ ν) (hp : Thermo.FullUpdate w.ads.policy)
+    (hk : Loaded.KeyDetermines w.keyOf w.loader) (o : Obs οi οa) (qs : List (Session.Query φ χ ι)) (q : Session.Query φ χ ι) :
+    (afterG (Session.step w) (o, Session.fresh) qs).1 = o ∧
+    (Session.step w (afterG (Session.step w) (o, Session.fresh) qs).1 (afterG (Session.step w) (o, Session.fresh) qs).2 q).1
+      = (Session.step w o Session.fresh q).1 := by
+  refine history_free_of_invariant (Session.step w)
+    (fun o h => PgVerif.Model.Cache.Valid w.iso o.iso h.interp ∧ Loaded.Sound w.keyOf w.loader h.loaded)
+    (session_preserves_obs w) ?_ ?_ o Session.fresh ⟨fresh_valid w.iso o.iso, sound_nil w.keyOf w.loader⟩ qs q
+  · intro o h q hI
+    cases q with
+    | iso q => exact ⟨run_valid w.iso o.iso h.interp hI.1 q, hI.2⟩
+    | ads q => exact hI
+    | std r => exact ⟨hI.1, load_sound w.keyOf w.loader hk h.loaded hI.2 r⟩
+  · intro o h h' q hI hI'
+    cases q with
+    | iso q =>
+      simp only [Session.step]
+      rw [outcome_independent_of_hidden w.iso o.iso h.interp h'.interp hI.1 hI'.1 q]
+    | ads q =>
+      simp only [Session.step]
+      rw [thermo_outcome_independent_of_hidden w.ads hp o.ads h.thermo h'.thermo q]
+    | std r =>
+      simp only [Session.step]
+      rw [load_outcome w.keyOf w.loader h.loaded hI.2 r, load_outcome w.keyOf w.loader h'.loaded hI'.2 r]
+
+end SessionSec
 
 end PgVerif.C04
